@@ -347,6 +347,48 @@ def run(cx: Cx):
     check_pure(cx, gc.qualname)
     check_pure(cx, CORE + 'SystemManager.__getitem__')
     check_lookup(cx, gc.qualname, Attr(Sym(gc.params[0]), 'component_pools'), Sym(gc.params[1]), 'KeyError')
+    # model.systems[T] is the listing for EVERY key that is not a system id (a str): component classes may have any metaclass
+    # (abc.ABC, ...), so the listing must be the fall-through case, not a case selected by `type(T) == type`
+    import ast as _ast
+    from sa.walker import _Ctx, State
+    sgi = cx.fn(CORE + 'SystemManager.__getitem__')
+    item = Sym(sgi.params[1])
+    cxt = _Ctx(cx.walker, sgi, WalkOptions())
+    is_str = []
+    for key_expr in (sgi.params[1], f"{sgi.params[1]}[0]"):
+        st0 = State()
+        st0.env[sgi.params[1]] = item
+        st0.env[sgi.params[0]] = Sym(sgi.params[0])
+        is_str.append(cxt.formula(cxt.ev(_ast.parse(f"type({key_expr}) == str", mode='eval').body, st0), st0))
+    bad_p = None
+    n_gi = 0
+    for p in cx.walker.paths(sgi, WalkOptions(unroll=1, callee_raises=False)):
+        n_gi += 1
+        lists = any(e.kind == 'call' and any(t.qualname == gc.qualname for t in e.data.get('targets', [])) for e in p.events)
+        if lists:
+            continue
+        if not any(implies(p.cond, f) is None for f in is_str):
+            bad_p = p
+            break
+    if bad_p is not None:
+        cx.violation('R-GUARD', sgi.qualname, 'every-non-str-key-is-a-component-listing',
+                     f"SystemManager.__getitem__ answers a key without consulting the component pools on a path [{bad_p.cond!r}] that has "
+                     f"not established that the key is a str (a system id): model.systems[T] reports no components for a component "
+                     f"class such a test does not recognise (a class with a metaclass, ...)", where=cx.where(sgi, bad_p.last.line if bad_p.last else None),
+                     path=bad_p.lines())
+    else:
+        cx.ok('R-GUARD', f"model.systems[key]: every key that is not a str is looked up in the component pools ({n_gi} paths)",
+              where=cx.where(sgi), function=sgi.qualname)
+    # pool operations (in / remove) compare with ==: the package's own component classes keep identity equality
+    compc = prog.cls(CORE + 'Component')
+    for ci_ in prog.subclasses(compc):
+        bad_m = [m for m in ('__eq__', '__hash__', '__ne__') if m in ci_.methods]
+        if bad_m:
+            cx.violation('R-DISC', ci_.qualname, 'components-compare-by-identity',
+                         f"{ci_.qualname} defines {bad_m}: `component in pool` / `pool.remove(component)` then act on the first EQUAL "
+                         f"component (user subclasses inherit it): a joining agent's component is refused as already registered, a "
+                         f"leaving agent removes another agent's component from the listing", where=ci_.where)
+    cx.ok('R-DISC', 'Component and its package subclasses keep identity equality', where=compc.where, function=compc.qualname)
 
     # ------------------------------------------------------------ clause 7: what join / leave are built on
     # join and leave fetch each component through agent[key] == Agent.get_component(key): the accessor must return the entry
